@@ -619,6 +619,65 @@ func (g *Gen) verifyLemma(ct *Contract) (fg *FnGen, err error) {
 					env.vars[n] = CVal{T: res[i], Ty: target.Signature.Results().At(i).Type()}
 				}
 			}
+		case "use":
+			if s.Expr.Kind != "call" || s.Expr.Args[0].Kind != "ident" {
+				fg.bindFailure(fmt.Sprintf("use:%d", si), fmt.Errorf("use needs lemmaName(args)"), 0)
+				continue
+			}
+			var lem *Contract
+			for _, c := range g.all {
+				if c.Kind == "lemma" && c.Key == s.Expr.Args[0].Name {
+					lem = c
+				}
+			}
+			if lem == nil || len(lem.ParamNames) != len(s.Expr.Args)-1 {
+				fg.bindFailure(fmt.Sprintf("use:%d", si), fmt.Errorf("unknown lemma or wrong arity: %s", s.Expr.Args[0].Name), 0)
+				continue
+			}
+			lenv := &Env{fg: fg, vars: map[string]CVal{}, st: st, pkg: g.pkgByPath[lem.Pkg]}
+			okArgs := true
+			for i, a := range s.Expr.Args[1:] {
+				v, e := env.eval(a)
+				if e != nil || v.T == nil {
+					fg.bindFailure(fmt.Sprintf("use:%d", si), fmt.Errorf("argument %d: %v", i, e), 0)
+					okArgs = false
+					break
+				}
+				lenv.vars[lem.ParamNames[i]] = v
+			}
+			if !okArgs {
+				continue
+			}
+			if len(lem.Stmts) > 0 {
+				hasLet := false
+				for _, ls := range lem.Stmts {
+					if ls.Kind == "let" {
+						hasLet = true
+					}
+				}
+				if hasLet {
+					fg.bindFailure(fmt.Sprintf("use:%d", si), fmt.Errorf("only lemmas without let statements can be instantiated"), 0)
+					continue
+				}
+			}
+			for _, r := range lem.Requires {
+				v, e := lenv.evalBool(r.Expr)
+				if e != nil {
+					fg.bindFailure(fmt.Sprintf("use:%d:requires", si), e, 0)
+					continue
+				}
+				fg.addObl("lemma", fmt.Sprintf("use:%d:%s:requires:%s", si, lem.Key, r.Label), True, v, 0, r.Src)
+				fg.assume(v)
+			}
+			for _, en := range lem.Ensures {
+				v, e := lenv.evalBool(en.Expr)
+				if e != nil {
+					fg.bindFailure(fmt.Sprintf("use:%d:ensures", si), e, 0)
+					continue
+				}
+				fg.assume(v)
+			}
+			g.usedContracts["lemma:"+lem.Key] = true
 		case "assert":
 			v, e := env.evalBool(s.Expr)
 			if e != nil {
@@ -805,6 +864,15 @@ func (g *Gen) solveObligation(o *Obligation, workdir string, timeoutS int, all b
 				r2.Solver += "(candidate model from the quantifier-free relaxation)"
 				r = r2
 			}
+		}
+	}
+	if !o.ExpectSat && (r.Status == "unknown" || r.Status == "timeout") {
+		// last resort before reporting an undischarged obligation: the same query with a longer time limit (a loaded
+		// machine must not turn into an alarm)
+		r3 := Solve(script, workdir, o.Name+"__retry", timeoutS*4, false)
+		if r3.Status == "unsat" || r3.Status == "sat" {
+			r3.Solver += "(retry)"
+			r = r3
 		}
 	}
 	res := OblResult{Name: o.Name, Kind: o.Kind, Solver: r.Solver, Secs: r.Secs, Raw: r.Status, All: r.All, Pos: o.Pos, Src: o.Src, Note: o.Note, obl: o,
